@@ -9,7 +9,7 @@ use fbh::prng::Rng;
 use fbh::report::{guarded, Report};
 use maven_dependency_resolver::maven_pom::MavenPom;
 use maven_dependency_resolver::resolver::Resolver;
-use maven_dependency_resolver::{get_maven_dependencies, DependencyScope, Downloader, FoundDependency};
+use maven_dependency_resolver::{get_maven_dependencies, Downloader, FoundDependency};
 use crate::coords::{g_found, of_coord, scope_idx, to_coord, ALL_SCOPES};
 use crate::pomgen::*;
 use crate::reference::{self, RFound, Ref};
@@ -27,19 +27,30 @@ impl Downloader for Dl {
 
 pub struct ImplAnswer { pub found: Result<Vec<(usize, ACoord, u8)>, String>, pub gallina: String, pub budget_hit: bool,
 	/// print/parse round trip of every resolved dependency: failures, and (printed form as a Gallina case) samples
-	pub roundtrip_failures: Vec<String>, pub prints: Vec<String> }
+	pub roundtrip_failures: Vec<String>, pub prints: Vec<String>,
+	/// the tie between the generated XML and the abstract POM could not be established for some document (a note for
+	/// the evidence, not a failure of the property: the oracle still judges the crate's answer on the XML it was given)
+	pub tie_notes: Vec<String>,
+	/// a document of the universe that is meant to be undeserialisable deserialises: the universe is not what the
+	/// generator meant and is skipped
+	pub broken_document_parses: Option<String> }
 
 /// serve the universe as XML and ask the crate
 pub fn ask_impl(u: &Universe, budget: usize) -> Result<ImplAnswer> {
 	let mut map = HashMap::new();
+	let mut tie_notes = vec![];
+	let mut broken_document_parses = None;
 	for (url, e) in u.url_map() {
 		let xml = match &e { Entry::Pom(p) => pom_xml(p), Entry::Broken(x) => x.clone() };
 		// the XML step is outside the model: check that the document deserialises to exactly the abstract POM
 		let parsed: Result<MavenPom, _> = serde_xml_rs::from_str(&xml);
 		match (&e, parsed) {
-			(Entry::Pom(p), Ok(m)) => { if format!("{m:?}") != pom_debug(p) { bail!("XML printer of the harness and serde disagree:\n{xml}\nexpected {}\ngot      {m:?}", pom_debug(p)); } }
-			(Entry::Pom(p), Err(x)) => bail!("generated XML does not deserialise: {x}\n{xml}\n{}", pom_debug(p)),
-			(Entry::Broken(_), Ok(m)) => bail!("a document meant to be undeserialisable deserialises: {xml}\n{m:?}"),
+			(Entry::Pom(p), Ok(m)) => match serde_json::to_value(&m) {
+				Ok(j) => { if !json_covers(&pom_json(p), &j) { tie_notes.push(format!("serde reads a generated document differently from the abstract POM given to the model:\n{xml}\nexpected (at least) {}\ngot {j}", pom_json(p))); } }
+				Err(x) => tie_notes.push(format!("MavenPom does not serialise ({x}); XML tie unchecked")),
+			},
+			(Entry::Pom(p), Err(x)) => tie_notes.push(format!("a generated document does not deserialise ({x}); the model is given {}\n{xml}", pom_json(p))),
+			(Entry::Broken(_), Ok(m)) => broken_document_parses = Some(format!("{xml}\n{m:?}")),
 			(Entry::Broken(_), Err(_)) => {}
 		}
 		map.insert(url, xml);
@@ -73,9 +84,9 @@ pub fn ask_impl(u: &Universe, budget: usize) -> Result<ImplAnswer> {
 	let budget_hit = dl.calls.load(Ordering::SeqCst) > budget;
 	let (roundtrip_failures, prints) = (rt_fail.into_inner(), prints.into_inner());
 	Ok(match res {
-		Err(p) => ImplAnswer { found: Err(format!("PANIC {p}")), gallina: "Err".into(), budget_hit, roundtrip_failures, prints },
-		Ok(Err(e)) => ImplAnswer { found: Err(e), gallina: "Err".into(), budget_hit, roundtrip_failures, prints },
-		Ok(Ok((g, f))) => ImplAnswer { found: Ok(f), gallina: format!("(Ok {g})"), budget_hit, roundtrip_failures, prints },
+		Err(p) => ImplAnswer { found: Err(format!("PANIC {p}")), gallina: "Err".into(), budget_hit, roundtrip_failures, prints, tie_notes, broken_document_parses },
+		Ok(Err(e)) => ImplAnswer { found: Err(e), gallina: "Err".into(), budget_hit, roundtrip_failures, prints, tie_notes, broken_document_parses },
+		Ok(Ok((g, f))) => ImplAnswer { found: Ok(f), gallina: format!("(Ok {g})"), budget_hit, roundtrip_failures, prints, tie_notes, broken_document_parses },
 	})
 }
 
@@ -88,13 +99,44 @@ fn show_found(u: &Universe, v: &[(usize, ACoord, u8)]) -> String {
 		u.repos.get(*r).map_or("?".to_string(), |x| x.maven.clone()))).collect::<Vec<_>>().join("\n")
 }
 
+/// notes instead of harness errors: what could not be tied or had to be skipped; true when the universe is unusable
+fn absorb(r: &mut Report, ans: &ImplAnswer) -> bool {
+	for n in &ans.tie_notes {
+		r.count("xml_tie_not_established");
+		if r.notes.iter().filter(|x| x.starts_with("XML tie")).count() < 3 { r.notes.push(format!("XML tie: {n}")); }
+	}
+	if let Some(x) = &ans.broken_document_parses {
+		r.count("skipped_broken_document_deserialises");
+		if r.notes.iter().filter(|x| x.starts_with("skipped")).count() < 3 { r.notes.push(format!("skipped a universe: a document meant to be undeserialisable deserialises: {x}")); }
+		return true;
+	}
+	false
+}
+
 /// compare with the documented rules; returns whether the case was non-trivial
 fn oracle(r: &mut Report, u: &Universe, ans: &ImplAnswer, what: &str) -> bool {
-	let (want, _, st) = reference::resolve_stats(u, 100_000);
+	let (want, _, st) = reference::resolve_stats(u, 100_000, false);
 	if st.conflict_equal_depth { r.count("graph_conflict_equal_depth"); }
 	if st.conflict_different_depth { r.count("graph_conflict_different_depth"); }
 	if st.diamond { r.count("graph_diamond_same_version"); }
 	if st.pruned_subtree { r.count("graph_rival_with_subtree"); }
+	// Outside the quantified subset: an imported BOM and an INHERITED managed entry fix different things for one
+	// artifact.  The documentation does not rank them; the crate expands the import in place (import wins), Maven's
+	// model builder assembles inheritance first (parent wins).  Such universes are classified, not judged.
+	let (want_maven, _, _) = reference::resolve_stats(u, 100_000, true);
+	if want != want_maven {
+		r.count("import_vs_inherited_management_universes");
+		let conv = |w: &Result<Vec<RFound>, ()>| -> Result<Vec<(usize, ACoord, u8)>, ()> { w.clone().map(|v| v.into_iter().map(|RFound { repo, coord, scope }| (repo, coord, scope)).collect()) };
+		let got = ans.found.clone().map_err(|_| ());
+		if got == conv(&want) { r.count("import_vs_inherited_management_crate_takes_the_import"); }
+		else if got == conv(&want_maven) { r.count("import_vs_inherited_management_crate_takes_the_parent"); }
+		else {
+			r.violation(format!("{what}: an imported BOM and an inherited managed entry disagree, and get_maven_dependencies matches neither the in-place reading nor Maven's inheritance-first reading"),
+				format!("property C19 ({what})\n{}crate answered:\n{}\nimport expanded in place:\n{}\ninheritance first:\n{}\n", u.replay(),
+					ans.found.as_ref().map_or_else(|e| e.clone(), |v| show_found(u, v)), conv(&want).map_or("Err".into(), |v| show_found(u, &v)), conv(&want_maven).map_or("Err".into(), |v| show_found(u, &v))));
+		}
+		return ans.found.as_ref().map_or(false, |v| v.len() >= 2);
+	}
 	let want_t: Result<Vec<(usize, ACoord, u8)>, ()> = want.map(|v| v.into_iter().map(|RFound { repo, coord, scope }| (repo, coord, scope)).collect());
 	for f in &ans.roundtrip_failures {
 		r.violation(format!("{what}: a resolved dependency does not survive printing and re-parsing"), format!("property C19 ({what})\n{f}\n"));
@@ -122,7 +164,7 @@ fn oracle(r: &mut Report, u: &Universe, ans: &ImplAnswer, what: &str) -> bool {
 pub fn ranks(u: &Universe) -> Option<Vec<(String, u64)>> {
 	use std::collections::{BTreeMap, BTreeSet};
 	let mut refs: BTreeMap<(String, String), BTreeSet<(String, String)>> = BTreeMap::new();
-	for r in &u.repos { for ((g, a, _), e) in &r.files {
+	for r in u.repos.iter().chain(u.unlisted.iter()) { for ((g, a, _), e) in &r.files {
 		let set = refs.entry((g.clone(), a.clone())).or_default();
 		if let Entry::Pom(p) = e {
 			if let Some((pg, pa, _)) = &p.parent { set.insert((pg.clone(), pa.clone())); }
@@ -139,7 +181,7 @@ pub fn ranks(u: &Universe) -> Option<Vec<(String, u64)>> {
 	}
 	let mut memo = BTreeMap::new();
 	let mut out = vec![];
-	for r in &u.repos { for ((g, a, v), _) in &r.files {
+	for r in u.repos.iter().chain(u.unlisted.iter()) { for ((g, a, v), _) in &r.files {
 		let k = rank(&(g.clone(), a.clone()), &refs, &mut memo, 0)?;
 		let url = pom_url(&r.maven, g, a, v);
 		if !out.iter().any(|(x, _): &(String, u64)| *x == url) { out.push((url, k)); }
@@ -150,7 +192,7 @@ pub fn ranks(u: &Universe) -> Option<Vec<(String, u64)>> {
 // ---------- fixed universes ----------
 fn dep(g: &str, a: &str, v: Option<&str>) -> ADep { ADep { group: g.into(), artifact: a.into(), version: v.map(|x| x.into()), type_: None, classifier: None, scope: None, optional: None } }
 fn pom(g: &str, a: &str, v: &str) -> APom {
-	APom { model_version: "4.0.0".into(), parent: None, group: Some(g.into()), artifact: a.into(), version: Some(v.into()), packaging: None, dm: vec![], deps: vec![], dm_empty_element: false }
+	APom { model_version: "4.0.0".into(), parent: None, group: Some(g.into()), artifact: a.into(), version: Some(v.into()), packaging: None, dm: vec![], deps: vec![], dm_empty_element: false, empty_lists: 0, xml_style: 0 }
 }
 fn coord(g: &str, a: &str, v: &str) -> ACoord { ACoord { group: g.into(), artifact: a.into(), version: v.into(), classifier: None, type_: "jar".into() } }
 fn one_repo(files: Vec<APom>) -> Vec<Repo> {
@@ -165,8 +207,9 @@ pub fn scope_table_cases(r: &mut Report) -> Result<()> {
 			let mut d = dep("g", "b", Some("1"));
 			d.scope = if top < 5 { Some(top) } else { None };
 			a.deps.push(d);
-			let u = Universe { repos: one_repo(vec![a, pom("g", "b", "1")]), roots: vec![(coord("g", "a", "1"), left)] };
+			let u = Universe::new(one_repo(vec![a, pom("g", "b", "1")]), vec![(coord("g", "a", "1"), left)]);
 			let ans = ask_impl(&u, 1000)?;
+			if absorb(r, &ans) { continue; }
 			let nt = oracle(r, &u, &ans, "scope table");
 			r.eval(&format!("table {left} {top}"), nt);
 			r.count("scope_table_universes");
@@ -185,11 +228,11 @@ pub fn documented_examples(r: &mut Report) -> Result<()> {
 		with(pom("g", "B", "1"), vec![dep("g", "C", Some("1"))]), with(pom("g", "C", "1"), vec![dep("g", "D", Some("2.0"))]),
 		with(pom("g", "E", "1"), vec![dep("g", "D", Some("1.0"))]), pom("g", "D", "1.0"), pom("g", "D", "2.0"),
 	];
-	us.push(("mediation example", Universe { repos: one_repo(files.clone()), roots: vec![(coord("g", "B", "1"), 0), (coord("g", "E", "1"), 0)] }));
-	us.push(("mediation example with explicit D 2.0", Universe { repos: one_repo(files.clone()), roots: vec![(coord("g", "B", "1"), 0), (coord("g", "E", "1"), 0), (coord("g", "D", "2.0"), 0)] }));
+	us.push(("mediation example", Universe::new(one_repo(files.clone()), vec![(coord("g", "B", "1"), 0), (coord("g", "E", "1"), 0)])));
+	us.push(("mediation example with explicit D 2.0", Universe::new(one_repo(files.clone()), vec![(coord("g", "B", "1"), 0), (coord("g", "E", "1"), 0), (coord("g", "D", "2.0"), 0)])));
 	// first declaration wins at equal depth
 	let files2 = vec![with(pom("g", "B", "1"), vec![dep("g", "C", Some("1.0"))]), with(pom("g", "D", "1"), vec![dep("g", "C", Some("2.0"))]), pom("g", "C", "1.0"), pom("g", "C", "2.0")];
-	us.push(("first declaration wins at equal depth", Universe { repos: one_repo(files2), roots: vec![(coord("g", "B", "1"), 0), (coord("g", "D", "1"), 0)] }));
+	us.push(("first declaration wins at equal depth", Universe::new(one_repo(files2), vec![(coord("g", "B", "1"), 0), (coord("g", "D", "1"), 0)])));
 	// dependency management: parent A manages a 1.2, b 1.0; child B manages d... (Introduction to the Dependency Mechanism)
 	let mut pa = pom("maven", "A", "1.0"); pa.packaging = Some("pom".into());
 	let m = |a: &str, v: &str, sc: Option<u8>| { let mut d = dep("test", a, Some(v)); d.scope = sc; d };
@@ -198,7 +241,7 @@ pub fn documented_examples(r: &mut Report) -> Result<()> {
 	pb.dm = vec![m("d", "1.0", None)];
 	pb.deps = vec![m("a", "1.0", Some(1)), { let mut d = dep("test", "c", None); d.scope = Some(1); d }, dep("test", "d", None), dep("test", "b", None)];
 	let fs = vec![pa.clone(), pb, pom("test", "a", "1.0"), pom("test", "b", "1.0"), pom("test", "c", "1.0"), pom("test", "d", "1.0")];
-	us.push(("dependency management example", Universe { repos: one_repo(fs), roots: vec![(coord("maven", "B", "1.0"), 0)] }));
+	us.push(("dependency management example", Universe::new(one_repo(fs), vec![(coord("maven", "B", "1.0"), 0)])));
 	// importing: Z imports X and Y, both manage a; X first
 	let bom = |name: &str, av: &str| { let mut p = pom("maven", name, "1.0"); p.packaging = Some("pom".into()); p.dm = vec![m("a", av, None), m(if name == "X" { "b" } else { "c" }, "1.0", Some(0))]; p };
 	let imp = |name: &str| { let mut d = dep("maven", name, Some("1.0")); d.type_ = Some("pom".into()); d.scope = Some(IMPORT); d };
@@ -206,17 +249,232 @@ pub fn documented_examples(r: &mut Report) -> Result<()> {
 	z.dm = vec![imp("X"), imp("Y")];
 	z.deps = vec![dep("test", "a", None), dep("test", "b", None), dep("test", "c", None)];
 	let fs = vec![bom("X", "1.1"), bom("Y", "1.2"), z, pom("test", "a", "1.1"), pom("test", "a", "1.2"), pom("test", "b", "1.0"), pom("test", "c", "1.0")];
-	us.push(("import example", Universe { repos: one_repo(fs), roots: vec![(coord("maven", "Z", "1.0"), 0)] }));
+	us.push(("import example", Universe::new(one_repo(fs), vec![(coord("maven", "Z", "1.0"), 0)])));
 	// a child's managed version applies to a dependency inherited from the parent
 	let mut p = pom("g", "p", "1"); p.packaging = Some("pom".into()); p.dm = vec![dep("g", "x", Some("1"))]; p.deps = vec![dep("g", "x", None)];
 	let mut c = pom("g", "c", "1"); c.parent = Some(("g".into(), "p".into(), "1".into())); c.dm = vec![dep("g", "x", Some("2"))];
-	us.push(("child manages an inherited dependency", Universe { repos: one_repo(vec![p, c, pom("g", "x", "1"), pom("g", "x", "2")]), roots: vec![(coord("g", "c", "1"), 0)] }));
+	us.push(("child manages an inherited dependency", Universe::new(one_repo(vec![p, c, pom("g", "x", "1"), pom("g", "x", "2")]), vec![(coord("g", "c", "1"), 0)])));
+	// a parent's managed entry against an imported BOM: parent manages x 1.0, the child imports a BOM managing x 2.0 and
+	// depends on x without a version.  Outside the quantified subset (see `oracle`): classified, and noted.
+	let mut par = pom("g", "par", "1"); par.packaging = Some("pom".into()); par.dm = vec![dep("g", "x", Some("1.0"))];
+	let mut bom = pom("g", "bom", "1"); bom.packaging = Some("pom".into()); bom.dm = vec![dep("g", "x", Some("2.0"))];
+	let mut ch = pom("g", "child", "1"); ch.parent = Some(("g".into(), "par".into(), "1".into()));
+	ch.dm = vec![{ let mut d = dep("g", "bom", Some("1")); d.type_ = Some("pom".into()); d.scope = Some(IMPORT); d }]; ch.deps = vec![dep("g", "x", None)];
+	us.push(("parent's managed entry against an imported BOM", Universe::new(one_repo(vec![par, bom, ch, pom("g", "x", "1.0"), pom("g", "x", "2.0")]), vec![(coord("g", "child", "1"), 0)])));
+	// the same universes in realistic XML: namespace declarations, comments, white space, CDATA, reordered sections,
+	// ignored elements (name, licenses, properties, build with plugin dependencies, ...), empty <dependencies/> elements
+	let plain = us.clone();
+	for k in 1..=4u64 {
+		for (i, (what, u)) in plain.iter().enumerate() {
+			let mut u = u.clone();
+			for rp in u.repos.iter_mut() { for (j, (_, e)) in rp.files.iter_mut().enumerate() { if let Entry::Pom(p) = e {
+				p.xml_style = (k * 1_000_003 + i as u64 * 131 + j as u64) | 1;
+				if p.deps.is_empty() && (j as u64 + k) % 2 == 0 { p.empty_lists |= 1; }
+				if p.dm.is_empty() && (j as u64 + k) % 3 == 0 { p.empty_lists |= 2; }
+			} } }
+			us.push((what, u));
+		}
+	}
 	for (what, u) in us {
 		let ans = ask_impl(&u, 10_000)?;
+		if absorb(r, &ans) { continue; }
+		if what.starts_with("parent's managed entry") {
+			let x = ans.found.as_ref().ok().and_then(|v| v.iter().find(|(_, c, _)| c.artifact == "x").map(|(_, c, _)| c.version.clone()));
+			let line = format!("parent manages g:x:1.0, child imports a BOM managing g:x:2.0 and depends on g:x without version: the crate resolves g:x:{} (Maven's model builder: 1.0, inheritance before import; in-place expansion: 2.0)", x.unwrap_or("?".into()));
+			if !r.notes.contains(&line) { r.notes.push(line); }
+		}
 		let nt = oracle(r, &u, &ans, what);
-		r.eval(&format!("doc {what}"), nt);
+		r.eval(&format!("doc {what} {}", u.replay()), nt);
 		r.count("documented_examples");
+		if u.repos.iter().flat_map(|x| x.files.iter()).any(|(_, e)| matches!(e, Entry::Pom(p) if p.xml_style != 0)) { r.count("documented_examples_realistic_xml"); }
 		r.case("documented", case_text(&u, &ans));
+	}
+	Ok(())
+}
+
+/// what lies behind an edge that must be cut before it is looked at
+const TARGETS: [&str; 7] = ["no document in any repository", "document only in a repository that is not among the resolvers", "document that does not deserialise",
+	"document with modelVersion 3.0.0", "POM whose parent has no document", "POM with a dependency lacking a version", "POM whose parent is not pom-packaged"];
+/// why the edge is cut
+const CUTS: [&str; 9] = ["optional", "optional, scope runtime", "scope test", "scope provided", "scope system", "optional from dependencyManagement",
+	"scope test from dependencyManagement", "optional from the parent's dependencyManagement", "scope provided from an imported BOM"];
+
+/// puts the target of a dangling edge into the universe
+fn add_target(target: usize, repos: &mut [Repo], unlisted: &mut Vec<Repo>, at: usize, g: &str, a: &str, v: &str) {
+	let key = (g.to_string(), a.to_string(), v.to_string());
+	match target {
+		0 => {}
+		1 => {
+			if unlisted.is_empty() { unlisted.push(Repo { name: "unlisted".into(), maven: "r://unlisted/m2".into(), files: vec![] }); }
+			unlisted[0].files.push((key, Entry::Pom(pom(g, a, v))));
+		}
+		2 => repos[at].files.push((key, Entry::Broken("<project><modelVersion>4.0.0</modelVersion><groupId>g</groupId></project>".into()))),
+		3 => { let mut p = pom(g, a, v); p.model_version = "3.0.0".into(); repos[at].files.push((key, Entry::Pom(p))); }
+		4 => { let mut p = pom(g, a, v); p.parent = Some((g.into(), format!("{a}-absent-parent"), "1".into())); repos[at].files.push((key, Entry::Pom(p))); }
+		5 => { let mut p = pom(g, a, v); p.deps = vec![dep(g, &format!("{a}-unmanaged"), None)]; repos[at].files.push((key, Entry::Pom(p))); }
+		_ => {
+			let mut p = pom(g, a, v); p.parent = Some((g.into(), format!("{a}-jar-parent"), "1".into()));
+			repos[at].files.push((key, Entry::Pom(p)));
+			repos[at].files.push(((g.to_string(), format!("{a}-jar-parent"), "1".to_string()), Entry::Pom(pom(g, &format!("{a}-jar-parent"), "1"))));
+		}
+	}
+}
+
+/// "optional and non-transitive scopes are cut": the cut happens BEFORE the dependency is looked at, so what lies
+/// behind a cut edge — nothing, an unusable document, a POM that cannot be completed — must not matter.
+/// Every way of cutting x every kind of unusable target, on the root's POM and one level below; and as controls the
+/// same targets behind an edge that is followed (resolution must fail).
+pub fn cut_cases(r: &mut Report) -> Result<()> {
+	for cut in 0..CUTS.len() + 1 {
+		for target in 0..TARGETS.len() {
+			for deep in [false, true] {
+				let mut x = dep("gh", "x", Some("1"));
+				let mut a = pom("g", "a", "1"); let mut b = pom("g", "b", "1"); let c = pom("g", "c", "1");
+				let mut extra: Vec<APom> = vec![];
+				let holder = if deep { &mut b } else { &mut a };
+				match cut {
+					0 => x.optional = Some(true),
+					1 => { x.optional = Some(true); x.scope = Some(1); }
+					2 => x.scope = Some(2),
+					3 => x.scope = Some(4),
+					4 => x.scope = Some(3),
+					5 => { let mut m = dep("gh", "x", Some("1")); m.optional = Some(true); holder.dm.push(m); x.version = None; }
+					6 => { let mut m = dep("gh", "x", Some("1")); m.scope = Some(2); holder.dm.push(m); }
+					7 => {
+						let mut p = pom("g", "par", "1"); p.packaging = Some("pom".into());
+						let mut m = dep("gh", "x", Some("1")); m.optional = Some(true); p.dm.push(m); extra.push(p);
+						holder.parent = Some(("g".into(), "par".into(), "1".into())); x.version = None;
+					}
+					8 => {
+						let mut p = pom("g", "bom", "1"); p.packaging = Some("pom".into());
+						let mut m = dep("gh", "x", Some("1")); m.scope = Some(4); p.dm.push(m); extra.push(p);
+						let mut i = dep("g", "bom", Some("1")); i.type_ = Some("pom".into()); i.scope = Some(IMPORT); holder.dm.push(i); x.version = None;
+					}
+					_ => {} // control: the edge is followed
+				}
+				holder.deps.push(x);
+				if deep { b.deps.push(dep("g", "c", Some("1"))); a.deps.push(dep("g", "b", Some("1"))); }
+				else { a.deps.insert(0, dep("g", "b", Some("1"))); b.deps.push(dep("g", "c", Some("1"))); }
+				let mut files = vec![a, b, c]; files.extend(extra);
+				let mut repos = one_repo(files);
+				repos.push(Repo { name: "second".into(), maven: "r://second/".into(), files: vec![] });
+				let mut unlisted = vec![];
+				add_target(target, &mut repos, &mut unlisted, (cut + target) % 2, "gh", "x", "1");
+				let root_scope = ((cut + 2 * target + deep as usize) % 5) as u8;
+				let mut u = Universe::new(repos, vec![(coord("g", "a", "1"), root_scope)]);
+				u.unlisted = unlisted;
+				let ans = ask_impl(&u, 10_000)?;
+				if absorb(r, &ans) { continue; }
+				let what = if cut < CUTS.len() { format!("cut before resolution ({}; behind the edge: {})", CUTS[cut], TARGETS[target]) } else { format!("followed edge ({})", TARGETS[target]) };
+				let nt = oracle(r, &u, &ans, &what);
+				r.eval(&format!("cut {cut} {target} {deep}"), nt);
+				r.count(if cut < CUTS.len() { "cut_edge_universes" } else { "followed_edge_control_universes" });
+				r.case("cut-before-resolution", case_text(&u, &ans));
+			}
+		}
+	}
+	Ok(())
+}
+
+/// Mediation across roots: plain POMs (no management, no parents), few artifacts in several versions, dense
+/// dependencies, 2..4 roots that name different versions of artifacts which also occur deep inside other roots' trees —
+/// winners inside one root's tree sit below nodes that lose against another root, rivals carry subtrees of their own.
+pub fn mediation_cases(r: &mut Report, rng: &mut Rng, n: usize) -> Result<()> {
+	// the seeded shape first: roots [a:1, l:2]; a:1 -> l:1 -> x:1 and a:1 -> m:1 -> n:1 -> x:2
+	let with = |p: APom, ds: Vec<ADep>| { let mut p = p; p.deps = ds; p };
+	let fixed = Universe::new(one_repo(vec![
+		with(pom("g", "a", "1"), vec![dep("g", "l", Some("1")), dep("g", "m", Some("1"))]), with(pom("g", "l", "1"), vec![dep("g", "x", Some("1"))]), pom("g", "l", "2"),
+		with(pom("g", "m", "1"), vec![dep("g", "n", Some("1"))]), with(pom("g", "n", "1"), vec![dep("g", "x", Some("2"))]), pom("g", "x", "1"), pom("g", "x", "2")]),
+		vec![(coord("g", "a", "1"), 0), (coord("g", "l", "2"), 0)]);
+	let mut i = 0;
+	let mut attempts = 0;
+	while i < n {
+		attempts += 1;
+		if attempts > 50 * n + 50 { bail!("mediation generator rejects too many universes"); }
+		let u = if i == 0 { fixed.clone() } else {
+			let nl = rng.range(3, 6);
+			let nv: Vec<usize> = (0..nl).map(|_| rng.range(1, 3)).collect();
+			let mut files = vec![];
+			for a in 0..nl { for v in 0..nv[a] {
+				let mut p = pom("g", &format!("m{a}"), &format!("{}", v + 1));
+				if a + 1 < nl { for _ in 0..rng.below(4) {
+					let b = rng.range(a + 1, nl - 1);
+					let d = dep("g", &format!("m{b}"), Some(&format!("{}", rng.range(1, nv[b]))));
+					if p.deps.iter().all(|x| x.artifact != d.artifact) { p.deps.push(d); }
+				} }
+				files.push(p);
+			} }
+			let mut roots = vec![];
+			for _ in 0..rng.range(2, 4) { let a = if rng.chance(1, 2) { rng.below(2) } else { rng.below(nl) }; roots.push((coord("g", &format!("m{a}"), &format!("{}", rng.range(1, nv[a]))), *rng.pick(&[0u8, 0, 1]))); }
+			let mut u = Universe::new(one_repo(files), roots);
+			if rng.chance(2, 3) {
+				// another version of something inside the first root's tree as a later root: that inner node loses, with its subtree
+				let mut rf = Ref::new(&u);
+				let mut count = 0;
+				if let Ok(t) = rf.tree(&u.roots[0].0.clone(), 0, 0, &mut count, 300) {
+					fn inner<'a>(n: &'a reference::RNode, depth: usize, out: &mut Vec<&'a ACoord>) { if depth >= 1 && !n.children.is_empty() { out.push(&n.coord); } for c in &n.children { inner(c, depth + 1, out); } }
+					let mut cands = vec![]; inner(&t, 0, &mut cands);
+					let cands: Vec<ACoord> = cands.into_iter().filter(|c| { let a: usize = c.artifact[1..].parse().unwrap(); nv[a] > 1 }).cloned().collect();
+					if !cands.is_empty() {
+						let c = rng.pick(&cands).clone();
+						let a: usize = c.artifact[1..].parse().unwrap();
+						let mut v = rng.range(1, nv[a]); if format!("{v}") == c.version { v = v % nv[a] + 1; }
+						let k = u.roots.len() - 1;
+						u.roots[k] = (coord("g", &c.artifact, &format!("{v}")), 0);
+					}
+				}
+			}
+			u
+		};
+		let (_, size, st) = reference::resolve_stats(&u, 300, false);
+		if size > 300 { continue; }
+		// keep the universes in which a rival with a subtree is discarded (the others are covered by the general stream)
+		if i > 0 && !(st.pruned_subtree && (st.conflict_different_depth || st.conflict_equal_depth)) && rng.chance(4, 5) { continue; }
+		let ans = ask_impl(&u, 100_000)?;
+		if absorb(r, &ans) { continue; }
+		let nt = oracle(r, &u, &ans, "mediation across roots");
+		r.eval(&format!("mediation {} {}", u.g_files(), u.g_roots()), nt);
+		r.count("mediation_universes");
+		r.case("mediation", case_text(&u, &ans));
+		i += 1;
+	}
+	Ok(())
+}
+
+/// (type, explicit classifier) of a dependency; the default handlers' table and the bundle plugin: which share a file
+/// extension, which imply a classifier
+pub const TYPE_SPECS: [(&str, Option<&str>); 16] = [("jar", None), ("ejb", None), ("maven-plugin", None), ("bundle", None), ("ejb-client", None), ("java-source", None),
+	("javadoc", None), ("test-jar", None), ("jar", Some("sources")), ("jar", Some("client")), ("jar", Some("tests")), ("jar", Some("javadoc")), ("ejb", Some("client")),
+	("war", None), ("pom", None), ("zip", None)];
+
+/// "conflicting versions of one artifact (same group, artifact, classifier, type)": two dependencies on one
+/// group:artifact with every pair of (type, classifier) — sharing the file extension or not, with equal or different
+/// effective classifier — at equal and at different depth, each version with a subtree of its own
+pub fn type_pair_cases(r: &mut Report) -> Result<()> {
+	for (i, (t1, c1)) in TYPE_SPECS.iter().enumerate() {
+		for (j, (t2, c2)) in TYPE_SPECS.iter().enumerate() {
+			if (i + j) % 2 == 1 && i > j { continue; } // the ordered pairs matter (who is first); thin out the mirror images
+			let mk = |t: &str, c: &Option<&str>, v: &str| { let mut d = dep("g", "lib", Some(v)); if t != "jar" || (i + j) % 3 == 0 { d.type_ = Some(t.into()); } d.classifier = c.map(|x| x.into()); d };
+			let mut root = pom("g", "root", "1"); let mut mid = pom("g", "mid", "1");
+			let mut l1 = pom("g", "lib", "1.0"); l1.deps = vec![dep("g", "under1", Some("1"))];
+			let mut l2 = pom("g", "lib", "2.0"); l2.deps = vec![dep("g", "under2", Some("1"))];
+			let same_depth = (i * 7 + j) % 3 == 0;
+			if same_depth { root.deps = vec![mk(t1, c1, "1.0"), mk(t2, c2, "2.0"), dep("g", "mid", Some("1"))]; }
+			else { root.deps = vec![dep("g", "mid", Some("1")), mk(t1, c1, "1.0")]; mid.deps = vec![mk(t2, c2, "2.0")]; }
+			if i == j { // the same (type, classifier) twice in one list is not a POM Maven accepts: put the second one level down
+				root.deps = vec![dep("g", "mid", Some("1")), mk(t1, c1, "1.0")]; mid.deps = vec![mk(t2, c2, "2.0")];
+			}
+			let _ = &mut l1; let _ = &mut l2;
+			let u = Universe::new(one_repo(vec![root, mid, l1, l2, pom("g", "under1", "1"), pom("g", "under2", "1")]), vec![(coord("g", "root", "1"), ((i + j) % 2) as u8)]);
+			let ans = ask_impl(&u, 10_000)?;
+			if absorb(r, &ans) { continue; }
+			let what = format!("two types of one artifact ({t1}{} and {t2}{})", c1.map_or(String::new(), |c| format!(" classifier {c:?}")), c2.map_or(String::new(), |c| format!(" classifier {c:?}")));
+			let nt = oracle(r, &u, &ans, &what);
+			r.eval(&format!("types {i} {j}"), nt);
+			r.count("type_pair_universes");
+			if let Ok(v) = &ans.found { r.count(if v.iter().filter(|(_, c, _)| c.artifact == "lib").count() == 2 { "type_pair_both_listed" } else { "type_pair_one_evicted" }); }
+			r.case("type-pairs", case_text(&u, &ans));
+		}
 	}
 	Ok(())
 }
@@ -231,7 +489,8 @@ struct Lib { group: String, artifact: String, kind: Kind, versions: Vec<String> 
 
 const GROUPS: [&str; 5] = ["g", "org.ex", "com.ex.lib", "io", "ünï.cöde"];
 const VERSIONS: [&str; 8] = ["1", "1.0", "2.0", "2.1", "3.0-SNAPSHOT", "1.5-20230713.025619-3", "0.9-beta", "1.0-20230713.02561-3"];
-const TYPES: [(&str, Option<&str>); 7] = [("test-jar", None), ("jar", Some("sources")), ("javadoc", None), ("war", None), ("test-jar", Some("tests")), ("jar", Some("")), ("zip", Some("dist"))];
+const TYPES: [(&str, Option<&str>); 16] = [("test-jar", None), ("jar", Some("sources")), ("javadoc", None), ("war", None), ("test-jar", Some("tests")), ("jar", Some("")), ("zip", Some("dist")),
+	("ejb", None), ("maven-plugin", None), ("bundle", None), ("java-source", None), ("ejb-client", None), ("jar", Some("client")), ("jar", Some("tests")), ("ejb", Some("client")), ("jar", Some("javadoc"))];
 
 fn key_of(d: &ADep) -> (String, String, Option<String>, String) {
 	let t = d.type_.clone().unwrap_or_else(|| "jar".into());
@@ -256,15 +515,18 @@ pub fn gen_universe(rng: &mut Rng, stream: Stream) -> Universe {
 	let mut home: HashMap<(usize, usize), usize> = HashMap::new();
 	for (i, l) in libs.iter().enumerate() { for j in 0..l.versions.len() { home.insert((i, j), rng.below(nr)); } }
 
+	let mut unlisted: Vec<Repo> = vec![];
+	let mut ghosts = 0usize;
+	let mut dangling = 0usize;
 	// generate from the highest rank down, so that everything a POM refers to already exists
 	for i in (0..nl).rev() {
 		for j in 0..libs[i].versions.len() {
-			let u_so_far = Universe { repos: repos.clone(), roots: vec![] };
+			let u_so_far = Universe::new(repos.clone(), vec![]);
 			let mut rf = Ref::new(&u_so_far);
 			let l = &libs[i];
 			let mut p = APom { model_version: "4.0.0".into(), parent: None, group: Some(l.group.clone()), artifact: l.artifact.clone(), version: Some(l.versions[j].clone()),
 				packaging: match l.kind { Kind::Jar => match rng.below(10) { 0 => Some("jar".into()), 1 => Some("bundle".into()), 2 => Some("war".into()), _ => None }, _ => Some("pom".into()) },
-				dm: vec![], deps: vec![], dm_empty_element: rng.chance(1, 10) };
+				dm: vec![], deps: vec![], dm_empty_element: rng.chance(1, 10), empty_lists: 0, xml_style: if rng.chance(1, 3) { rng.next() | 1 } else { 0 } };
 			let higher: Vec<usize> = ((i + 1)..nl).collect();
 			let pick_ver = |rng: &mut Rng, k: usize, libs: &Vec<Lib>| -> String { rng.pick(&libs[k].versions).clone() };
 			// parent
@@ -310,7 +572,7 @@ pub fn gen_universe(rng: &mut Rng, stream: Stream) -> Universe {
 			let managed: Vec<reference::RDone> = {
 				let mut tmp = repos.clone();
 				tmp[0].files.insert(0, (("\u{0}probe".into(), "probe".into(), "0".into()), Entry::Pom(probe)));
-				let tu = Universe { repos: tmp, roots: vec![] };
+				let tu = Universe::new(tmp, vec![]);
 				let mut r2 = Ref::new(&tu);
 				r2.effective("\u{0}probe", "probe", "0", 0).ok().map_or(vec![], |x| x.1.dm)
 			};
@@ -352,6 +614,41 @@ pub fn gen_universe(rng: &mut Rng, stream: Stream) -> Universe {
 					if p.deps.iter().all(|x| key_of(x) != key_of(&d)) { p.deps.push(d); }
 				}
 			}
+			// the same artifact once more under another type: different artifacts for Maven unless type AND classifier agree
+			if !p.deps.is_empty() && rng.chance(1, 5) {
+				let mut d = rng.pick(&p.deps).clone();
+				if let Some(k) = libs.iter().position(|l| l.group == d.group && l.artifact == d.artifact) {
+					let (t, c) = *rng.pick(&TYPE_SPECS);
+					d.type_ = if t == "jar" && rng.chance(1, 2) { None } else { Some(t.into()) }; d.classifier = c.map(|x| x.into());
+					d.version = Some(pick_ver(rng, k, &libs));
+					let kd = key_of(&d);
+					if p.deps.iter().all(|x| key_of(x) != kd) && (!inherited.contains(&kd) || stream == Stream::Redeclare) { let at = rng.below(p.deps.len() + 1); p.deps.insert(at, d); }
+				}
+			}
+			// edges that must be cut before anybody looks behind them: optional / non-transitive scope (declared or
+			// managed), pointing at something that cannot be resolved
+			if rng.chance(1, 4) {
+				for _ in 0..rng.range(1, 2) {
+					ghosts += 1;
+					let (gg, ga, gv) = ("gh.ost".to_string(), format!("x{ghosts}"), rng.pick(&VERSIONS).to_string());
+					let at = rng.below(nr);
+					add_target(rng.below(TARGETS.len()), &mut repos, &mut unlisted, at, &gg, &ga, &gv);
+					let mut d = dep(&gg, &ga, Some(&gv));
+					match rng.below(8) {
+						0 => d.optional = Some(true),
+						1 => { d.optional = Some(true); d.scope = Some(*rng.pick(&[0u8, 1])); }
+						2 | 3 => d.scope = Some(2),
+						4 => d.scope = Some(4),
+						5 => d.scope = Some(3),
+						6 => { let mut m = dep(&gg, &ga, Some(&gv)); m.optional = Some(true); if rng.chance(1, 2) { m.scope = Some(1); } p.dm.insert(0, m); if rng.chance(1, 2) { d.version = None; } }
+						_ => { let mut m = dep(&gg, &ga, Some(&gv)); m.scope = Some(*rng.pick(&[2u8, 3, 4])); p.dm.insert(0, m); d.version = None; }
+					}
+					let pos = rng.below(p.deps.len() + 1); p.deps.insert(pos, d);
+					dangling += 1;
+				}
+			}
+			if p.deps.is_empty() && rng.chance(1, 4) { p.empty_lists |= 1; }
+			if p.dm.is_empty() && rng.chance(1, 8) { p.empty_lists |= 2; }
 			let key = (l.group.clone(), l.artifact.clone(), l.versions[j].clone());
 			let h = home[&(i, j)];
 			repos[h].files.push((key.clone(), Entry::Pom(p.clone())));
@@ -368,7 +665,9 @@ pub fn gen_universe(rng: &mut Rng, stream: Stream) -> Universe {
 		let all: Vec<(usize, usize)> = repos.iter().enumerate().flat_map(|(ri, r)| (0..r.files.len()).map(move |fi| (ri, fi))).collect();
 		let (ri, fi) = *rng.pick(&all);
 		let bad = *rng.pick(&["<project><modelVersion>4.0.0</modelVersion><groupId>g</groupId></project>", "not xml at all",
-			"<project><modelVersion>4.0.0</modelVersion><artifactId>a</artifactId><dependencies></dependencies></project>",
+			"<project><modelVersion>4.0.0</modelVersion><artifactId>a</artifactId><dependencies><dependency><artifactId>x</artifactId><version>1</version></dependency></dependencies></project>",
+			"<project><modelVersion>4.0.0</modelVersion><artifactId>a</artifactId><dependencies><dependency><groupId>g</groupId><artifactId>x</artifactId><scope>bogus</scope></dependency></dependencies></project>",
+			"<project><modelVersion>4.0.0</modelVersion><artifactId>a</artifactId><dependencies><dependency><groupId>g</groupId></project>",
 			"<project><modelVersion>4.0.0</modelVersion><artifactId>a</artifactId><dependencies><dependency><groupId>g</groupId><artifactId>x</artifactId><scope>import</scope></dependency></dependencies></project>",
 			"<project><modelVersion>4.0.0</modelVersion><artifactId>a</artifactId><dependencies><dependency><groupId>g</groupId><artifactId>x</artifactId><optional>yes</optional></dependency></dependencies></project>"]);
 		repos[ri].files[fi].1 = Entry::Broken(bad.into());
@@ -399,7 +698,8 @@ pub fn gen_universe(rng: &mut Rng, stream: Stream) -> Universe {
 		roots.push((c, rng.below(5) as u8));
 	}
 	if !roots.is_empty() && rng.chance(1, 10) { let d = rng.pick(&roots).clone(); roots.push(d); }
-	Universe { repos, roots }
+	let _ = dangling;
+	Universe { repos, roots, unlisted }
 }
 
 pub fn generated_cases(r: &mut Report, rng: &mut Rng, n: usize) -> Result<()> {
@@ -415,8 +715,14 @@ pub fn generated_cases(r: &mut Report, rng: &mut Rng, n: usize) -> Result<()> {
 			if size > 250 { r.count("oversize_regenerated"); continue; }
 		}
 		let name = match stream { Stream::Valid => "valid", Stream::Errors => "errors", Stream::ImportFirst => "imports-before-managed", Stream::Redeclare => "child-redeclares", Stream::Cyclic => "cyclic", Stream::BrokenXml => "broken-xml" };
-		let ans = ask_impl(&u, if stream == Stream::Cyclic { 1500 } else { 100_000 })?;
-		if ans.budget_hit && stream != Stream::Cyclic { bail!("download budget hit on an acyclic universe:\n{}", u.replay()); }
+		let ans = ask_impl(&u, if stream == Stream::Cyclic { 400 } else { 100_000 })?;
+		if absorb(r, &ans) { continue; }
+		if ans.budget_hit && stream != Stream::Cyclic {
+			// not a property failure: the reference bounded the graph by 250 nodes, the crate asked for more than 100 000 documents
+			r.count("skipped_download_budget_on_acyclic_universe");
+			if r.notes.iter().filter(|x| x.starts_with("skipped: download budget")).count() < 2 { r.notes.push(format!("skipped: download budget hit on an acyclic universe:\n{}", u.replay())); }
+			continue;
+		}
 		let canon = format!("{} {} {}", u.g_resolvers(), u.g_files(), u.g_roots());
 		let nontrivial = match stream {
 			// inside the property's quantifier: compare with the documented rules
@@ -433,6 +739,10 @@ pub fn generated_cases(r: &mut Report, rng: &mut Rng, n: usize) -> Result<()> {
 		if u.repos.iter().flat_map(|x| x.files.iter()).any(|(_, e)| matches!(e, Entry::Pom(p) if p.dm.iter().any(|d| d.scope == Some(IMPORT)))) { r.count("universe_with_import"); }
 		if u.repos.iter().flat_map(|x| x.files.iter()).any(|(_, e)| matches!(e, Entry::Pom(p) if p.deps.iter().any(|d| d.version.is_none()))) { r.count("universe_with_managed_version"); }
 		if u.repos.len() > 1 { r.count("universe_multi_repo"); }
+		if !u.unlisted.is_empty() { r.count("universe_with_unlisted_repository"); }
+		if u.url_map().iter().any(|(url, _)| url.contains("/gh/ost/")) || u.repos.iter().flat_map(|x| x.files.iter()).any(|(_, e)| matches!(e, Entry::Pom(p) if p.deps.iter().any(|d| d.group == "gh.ost"))) { r.count("universe_with_dangling_cut_edge"); }
+		if u.repos.iter().flat_map(|x| x.files.iter()).any(|(_, e)| matches!(e, Entry::Pom(p) if p.xml_style != 0)) { r.count("universe_with_realistic_xml"); }
+		if u.repos.iter().flat_map(|x| x.files.iter()).any(|(_, e)| matches!(e, Entry::Pom(p) if p.empty_lists != 0)) { r.count("universe_with_empty_dependencies_element"); }
 		r.case(name, case_text(&u, &ans));
 		if stream == Stream::Valid { for p in &ans.prints { r.case("resolved-print", p.clone()); } }
 		if stream == Stream::Valid && i % 5 == 0 {
